@@ -130,7 +130,8 @@ impl<T: Qcow2IoOps> Qcow2Dev<T> {
                 MappingSource::Compressed => {
                     if let Some(off) = mapping.cluster_offset {
                         let start = off >> info.cluster_bits();
-                        let end = (off + (mapping.compressed_length.unwrap() as u64))
+                        // the compressed data ends one byte before off + length
+                        let end = (off + (mapping.compressed_length.unwrap() as u64) - 1)
                             >> info.cluster_bits();
                         for off in start..=end {
                             Self::add_used_cluster_to_set(ranges, off);
